@@ -24,7 +24,13 @@ func c19(r *core.Run) {
 	r.Rule("C19/R6", "records read for export are decoded into a variable local to the iteration: the generated decoder does not reset its target, so a shared target exports records polluted with the previous record's repeated and empty-on-the-wire fields")
 	r.Rule("C19/R7", "InitGenesis writes every element of every imported list: import loops are left only when the list is exhausted and no path through a loop body skips the write")
 	r.Rule("C19/R8", "InitGenesis hands the genesis file's parameter set to SetParams as it is (no completion with defaults: proto3 cannot tell an absent field from an explicit zero)")
+	r.Rule("C19/R9", "the record setters that InitGenesis (and every handler) writes through store exactly what they are handed, always: the parameter is marshalled unmodified and every path performs the write — a derived index that is skipped when its slot is occupied keeps a stale copy that a restart from genesis replaces")
 	r.Rule("C19/R3", "field pairing: every GenesisState field is assigned in ExportGenesis and read in InitGenesis")
+	nSetters := 0
+	for _, m := range core.CustomModules {
+		nSetters += settersFaithful(r, "C19/R9", m)
+	}
+	r.Floor("C19/R9", nSetters, 12, "record setters")
 	hs, err := p.Handlers()
 	if err != nil {
 		r.Undecided("C19/R1", "handlers", "", err.Error())
@@ -110,7 +116,7 @@ func c19(r *core.Run) {
 		st := gs.Underlying().(*types.Struct)
 		assigned, read := map[string]bool{}, map[string]bool{}
 		// only assignments made by ExportGenesis itself from keeper reads count (DefaultGenesis fills constants)
-		allInstrs(expFn, func(in ssa.Instruction) {
+		assignIn := func(in ssa.Instruction) {
 			if s, ok := in.(*ssa.Store); ok {
 				if fa, ok := s.Addr.(*ssa.FieldAddr); ok && core.TypeName(fa.X.Type()) == "x/"+m+"/types.GenesisState" {
 					if _, isCall := s.Val.(*ssa.Call); isCall {
@@ -118,7 +124,14 @@ func c19(r *core.Run) {
 					}
 				}
 			}
-		})
+		}
+		allInstrs(expFn, assignIn)
+		// ... or by a helper ExportGenesis delegates to and whose result it returns
+		for _, f := range p.Summary(expFn).Funcs {
+			if f != expFn && core.ModuleOf(f) == m && f.Signature.Results().Len() == 1 && core.TypeName(f.Signature.Results().At(0).Type()) == "x/"+m+"/types.GenesisState" {
+				allInstrs(f, assignIn)
+			}
+		}
 		readIn := func(in ssa.Instruction) {
 			switch x := in.(type) {
 			case *ssa.FieldAddr:
@@ -157,8 +170,60 @@ func c19(r *core.Run) {
 		for _, fn := range p.Summary(initFn).Funcs {
 			allInstrs(fn, func(in ssa.Instruction) {
 				c, ok := in.(ssa.CallInstruction)
-				if !ok || fn != initFn {
+				if !ok {
 					return
+				}
+				// InitGenesis itself, or a helper it hands its genesis state to unchanged
+				gsParam := func(f *ssa.Function) (*ssa.Parameter, int) {
+					for i, prm := range f.Params {
+						if core.TypeName(prm.Type()) == "x/"+m+"/types.GenesisState" {
+							return prm, i
+						}
+					}
+					return nil, -1
+				}
+				if fn != initFn {
+					hp, hi := gsParam(fn)
+					ip, _ := gsParam(initFn)
+					if hp == nil || ip == nil {
+						return
+					}
+					handed := false
+					allInstrs(initFn, func(in2 ssa.Instruction) {
+						c2, isCall := in2.(ssa.CallInstruction)
+						if !isCall {
+							return
+						}
+						for _, cal := range p.Callees(c2) {
+							if cal != fn {
+								continue
+							}
+							cc := c2.Common()
+							var actuals []ssa.Value
+							if cc.IsInvoke() {
+								actuals = append(actuals, cc.Value)
+							}
+							actuals = append(actuals, cc.Args...)
+							if hi < len(actuals) {
+								a := actuals[hi]
+								if ld, isLd := a.(*ssa.UnOp); isLd {
+									if al, isAl := ld.X.(*ssa.Alloc); isAl {
+										for _, ref := range *al.Referrers() {
+											if st, isSt := ref.(*ssa.Store); isSt && st.Addr == al {
+												a = st.Val
+											}
+										}
+									}
+								}
+								if a == ssa.Value(ip) {
+									handed = true
+								}
+							}
+						}
+					})
+					if !handed {
+						return
+					}
 				}
 				for _, cal := range p.Callees(c) {
 					if cal.Name() != "SetParams" || core.ModuleOf(cal) != m {
@@ -192,7 +257,7 @@ func c19(r *core.Run) {
 							base = nil
 						}
 					}
-					if prm, ok := base.(*ssa.Parameter); ok && prm.Parent() == initFn {
+					if prm, ok := base.(*ssa.Parameter); ok && prm.Parent() == fn {
 						okV = true
 					}
 					r.Check(okV, "C19/R8", m+":import-params-verbatim", p.InstrPos(c), "SetParams(genState.Params)", "InitGenesis stores "+t+" instead of the genesis file's parameter set as it is: a parameter that is legitimately 0 / empty comes back as a default after export and import")
